@@ -216,6 +216,12 @@ def run(tier, seed):
     transitions += db["runs"]
     cov["docs_batch_sweep"] = db
 
+    ds = dsl_batch_sweep(mlr, V, thorough)
+    executed += ds["runs"]
+    states += ds["runs"]
+    transitions += ds["runs"]
+    cov["dsl_batch_sweep"] = ds
+
     # ---- 5. --seed reproducibility ------------------------------------------------------------
     sd = seed_check(mlr, V, thorough)
     executed += sd["runs"]
@@ -409,6 +415,115 @@ def docs_batch_sweep(mlr, V, thorough):
                          "stdout_lengths_by_batch": {str(b): len(v[2]) for b, v in d.items()}})
     shutil.rmtree(work, ignore_errors=True)
     return {"commands": len(picked), "usable": usable, "runs": len(cases), "differing": differing[:10]}
+
+
+SWEEP_COMMANDS = [
+    # per-record output statements on accumulating out-of-stream maps (the emitted record must be a snapshot)
+    ["put", "-q", "@count[$k] += 1; emit @count"],
+    ["put", "-q", "@count[$k] += 1; emitp @count"],
+    ["put", "-q", "@count[$k] += 1; emit1 @count"],
+    ["put", "-q", "@count[$k] += 1; emit mapsum(@count, {})"],
+    ["put", "-q", "@sum[$k][$j] += $i; emit @sum, \"k\""],
+    ["put", "-q", "@sum[$k][$j] += $i; emitp @sum, \"k\""],
+    ["put", "-q", "@sum[$k][$j] += $i; emitp @sum"],
+    ["put", "-q", "@sum[$k][$j] += $i; emit @sum"],
+    ["put", "-q", "@a[$k] += $i; @b[$k] += 1; emit (@a, @b), \"k\""],
+    ["put", "-q", "@a[$k] += $i; @b[$k] += 1; emitp (@a, @b), \"k\""],
+    ["put", "-q", "@a[$k] += $i; @b[$k] += 1; emitp (@a, @b)"],
+    ["put", "-q", "@a += $i; @b = $k; emitf @a, @b"],
+    ["put", "-q", "@r[NR] = $*; emit @r[NR]"],
+    ["put", "-q", "@r[$k] = $*; emit @r, \"k\""],
+    ["put", "-q", "@last = $*; emit @last"],
+    ["put", "-q", "@count[$k] += 1; tee > \"/dev/stdout\", @count"] ,
+    ["put", "-q", "@count[$k] += 1; dump"],
+    ["put", "-q", "@count[$k] += 1; print json_encode(@count)"] ,
+    ["put", "@count[$k] += 1; $c = @count[$k]; $m = json_decode(json_encode(@count))"],
+    ["put", "-q", "@count[$k] += 1; emit @count", "then", "put", "$z = NR"],
+    ["put", "-q", "@count[$k] += 1; emitp @count", "then", "cat", "-n"],
+    ["put", "-q", "@count[$k] += 1; emit1 @count", "then", "tac"],
+    ["put", "@m[$k] = $i; $* = mapsum($*, @m)"],
+    ["put", "m = $*; m[\"q\"] = NR; emit1 m; $done = 1"],
+    ["put", "-q", "@recs[NR] = $*; end { emit @recs, \"NR\" }"],
+    ["put", "-q", "@c[$k][$j] = $i; end { emitp @c, \"k\", \"j\" }"],
+    # windows and shifts, followed by a verb that modifies the records in place
+    ["step", "-a", "slwin_2_0,slwin_0_2,slwin_1_1", "-f", "i", "then", "put", "$i = 0"],
+    ["step", "-a", "shift,shift_lag,shift_lead,delta,ratio,counter,rsum,rprod", "-f", "i", "then", "put", "$i = 0"],
+    ["step", "-a", "ewma", "-d", "0.1,0.9", "-f", "i", "then", "put", "$i = 0"],
+    ["step", "-a", "slwin_2_2", "-f", "i", "-g", "k", "then", "put", "$i = -$i"],
+    ["fill-down", "-a", "then", "put", "$i = 0"], ["fill-down", "-f", "j", "then", "put", "$j = \"\""],
+    ["count-similar", "-g", "k", "then", "put", "$k = \"z\""], ["top", "-n", "2", "-f", "i", "-g", "k", "-a", "then", "put", "$i = 0"],
+    ["merge-fields", "-k", "-a", "sum,count", "-f", "i,n", "-o", "m", "then", "put", "$i = 0"],
+    ["tee", "/dev/null", "then", "put", "$i = 0"], ["nest", "--ivar", ";", "-f", "j", "then", "put", "$k = 1"],
+    ["repeat", "-n", "2", "then", "put", "$i = NR"], ["repeat", "-f", "n", "then", "put", "$i = $i . \"x\""],
+    ["bootstrap", "then", "put", "$i = $i . \"x\""], ["sample", "-k", "30", "then", "put", "$i = $i . \"x\""], ["shuffle", "then", "put", "$i = 0"],
+    ["unsparsify", "then", "put", "$zz = 1"], ["tac", "then", "put", "$i = 0"], ["group-by", "k", "then", "put", "$i = 0"],
+    ["sec2gmt", "i", "then", "put", "$i = 0"], ["seqgen", "--start", "1", "--stop", "40", "then", "put", "$j = $i * 2"],
+    ["split-join", "-h"],
+    # the lazily built key index of wide records (12 fields and more) under renames and positional assignments
+    ["put", "$y = $a; $[[1]] = \"A\"; $z = $a; $w = $A"],
+    ["put", "$[[3]] = \"C\"; $y = $c; $x = $C"], ["put", "$[[[3]]] = \"v\"; $y = $c"],
+    ["put", "unset $c; $c = 9; $y = $c"], ["put", "$c = 9; unset $c; $y = is_absent($c)"],
+    ["rename", "a,A,c,C", "then", "put", "$y = $a . $A . $c . $C"], ["rename", "-r", "^(.)$,x_\\1", "then", "put", "$y = $x_a . $a"],
+    ["reorder", "-f", "c,b", "then", "put", "$y = $a . $b . $c"], ["reorder", "-e", "-f", "a", "then", "put", "$y = $a"],
+    ["cut", "-x", "-f", "b,c", "then", "put", "$y = is_absent($b) . $a"], ["cut", "-o", "-f", "c,a,l", "then", "put", "$y = $l . $a"],
+    ["label", "A,B,C", "then", "put", "$y = $A . is_absent($a)"], ["sort-within-records", "-r", "then", "put", "$y = $a . $n"],
+    ["put", "map m = $*; unset $*; $* = m; $y = $a"], ["put", "$* = mapexcept($*, \"a\"); $y = is_absent($a); $a = 1; $z = $a"],
+    ["template", "-f", "n,a,zz", "then", "put", "$y = $a . $zz"], ["regularize", "then", "put", "$y = $a"],
+    ["put", "for (k, v in $*) { if (k == \"b\") { unset $[k] } } $y = is_absent($b); $b = 2; $z = $b"],
+    ["put", "$new1 = 1; $new2 = 2; unset $new1; $y = is_absent($new1) . $new2"],
+    ["nest", "--explode", "--values", "--across-fields", "-f", "j", "--nested-fs", ";", "then", "put", "$y = $j_1"],
+    ["sec2gmt", "-1", "i", "then", "put", "$y = $i"], ["fill-empty", "then", "put", "$y = $a"],
+]
+SWEEP_COMMANDS = [c for c in SWEEP_COMMANDS if c != ["split-join", "-h"]]
+
+
+def dsl_batch_sweep(mlr, V, thorough):
+    """A catalogue of commands whose output must not depend on --records-per-batch, on --hash-records / --no-hash-records or
+    on timing (per-record emits of accumulating maps, windows followed by in-place modification, renames and positional
+    assignments on wide records), run on a 40-record, 14-field input under every combination. The oracle is the property
+    (BatchIndependence of Pipeline.tla; the statement names these flags): all runs of a command must agree."""
+    rows = []
+    for i in range(1, 41):
+        k = "g%d" % (i % 3)
+        rows.append("a=%d,b=%d,c=%d,d=4,e=5,f=6,g=7,h=8,l=9,m=10,k=%s,j=%s,i=%d,n=%d" % (i, i * 2, i * 3, k, "x;y" if i % 2 else "z", i, i % 4 + 1))
+    body = "\n".join(rows) + "\n"
+    variants = [(b, h, e) for b in (1, 2, 7, 39, 40, 500) for h in ("--hash-records", "--no-hash-records")
+                for e in ({}, {"GOMAXPROCS": "1"})]
+    if not thorough:
+        variants = [v for k, v in enumerate(variants) if k % 2 == 0 or v[0] in (1, 500)]
+    cases, meta = [], []
+    for ci, cmd in enumerate(SWEEP_COMMANDS):
+        seeded = ["--seed", "7"] if cmd[0] in ("bootstrap", "sample", "shuffle") else []
+        for b, h, e in variants:
+            cases.append({"argv": [mlr, "--records-per-batch", str(b), h] + seeded + cmd + (["in.dkvp"] if cmd[0] != "seqgen" else []),
+                          "files": {"in.dkvp": body}, "env": e, "timeout_ms": 15000})
+            meta.append((ci, b, h))
+    res = vlib.run_cases(cases)
+    vlib.confirm_timeouts(cases, res)
+    by = {}
+    for (ci, b, h), r in zip(meta, res):
+        by.setdefault(ci, []).append(((b, h), r))
+    differing = []
+    for ci, lst in by.items():
+        cmd = SWEEP_COMMANDS[ci]
+        outs = {(r["exit"], r["timed_out"], r["stdout"]) for _, r in lst}
+        if any(r["timed_out"] for _, r in lst):
+            V.violation({"shape": "hang", "command": cmd}, {"command": cmd})
+        elif all(r["exit"] != 0 for _, r in lst):
+            continue            # not a runnable command in this version: not judged
+        elif len(outs) > 1:
+            byb = {}
+            for (b, h), r in lst:
+                byb.setdefault((r["exit"], r["stdout"]), []).append("%d%s" % (b, "h" if h == "--hash-records" else "n"))
+            differing.append(cmd)
+            only_hash = all(len({x[-1] for x in g}) == 1 for g in byb.values()) and len(byb) == 2
+            key = {"shape": "output-depends-on-batch-size-or-hash-mode", "command": cmd}
+            if cmd[0] == "step" and any("slwin" in a for a in cmd):
+                # identification of a recorded finding: sliding windows reaching backwards, followed by an in-place modification
+                key = {"shape": "output-depends-on-batch-size-or-hash-mode", "family": "step-slwin-backward-window-then-modification"}
+            V.violation(key,
+                        {"command": cmd, "groups_of_agreeing_settings": sorted(byb.values(), key=len), "depends_only_on_hash_mode": only_hash})
+    return {"commands": len(SWEEP_COMMANDS), "settings_per_command": len(variants), "runs": len(cases), "differing": differing}
 
 
 def printhead_probe(mlr, V):
